@@ -1,9 +1,11 @@
 #!/bin/sh
-# tools/try_seed.sh <patch.diff> <Cxx> [seeds...] : apply a seeded change to /repo, run the check, undo.
+# tools/try_seed.sh <patch.diff> <Cxx> [seeds...] : apply a seeded change to a scratch worktree of /repo's HEAD,
+# run the check against it (VERIF_REPO), remove the worktree. (While other builders run checks against /repo the
+# change is not applied to /repo itself; for the final record the same is done on /repo with git apply / checkout.)
 P="$1"; C="$2"; shift 2; SEEDS="${*:-0 1}"
-cd /repo || exit 2
-if [ -n "$(git status --porcelain)" ]; then echo "/repo not clean"; exit 2; fi
-git apply "$P" || { echo "patch does not apply"; exit 2; }
+WT=/tmp/wt-seed-$$
+git -C /repo worktree add -q "$WT" HEAD || exit 2
+( cd "$WT" && git apply "$P" ) || { echo "patch does not apply"; git -C /repo worktree remove --force "$WT"; exit 2; }
 cd /verif
-for s in $SEEDS; do VERIF_SEED=$s timeout 1500 ./check "$C" 2>&1 | grep -v "^Warning: Point\|^spglib" | tail -2; done
-git -C /repo checkout -- . ; git -C /repo status --porcelain | head -3
+for s in $SEEDS; do VERIF_REPO="$WT" VERIF_SEED=$s timeout 1500 ./check "$C" 2>&1 | grep -v "^Warning: Point\|^spglib" | tail -2; done
+git -C /repo worktree remove --force "$WT"
